@@ -72,7 +72,16 @@ def extract_family(fam, cfg):
             try:
                 src = read(it["file"])
                 kind = it["kind"]
-                if kind == "fn":
+                if kind == "fn_first":
+                    # the first (top-level) definition of a name that also occurs nested elsewhere
+                    ms = [m for m in re.finditer(r"(?m)^pub fn " + re.escape(it["fn"]) + r"\b", src)]
+                    if len(ms) != 1:
+                        raise extract.AnchorLost(f"top-level fn {it['fn']}: {len(ms)} definitions")
+                    b = extract.scan(src, ms[0].end(), "{;")
+                    e = extract.match_brace(src, b)
+                    text = src[ms[0].start():e]
+                    rep["source"] = f"{it['file']}:{extract.line_of(src, ms[0].start())}-{extract.line_of(src, e)}"
+                elif kind == "fn":
                     if it.get("impl"):
                         info = extract.find_fn_in_impls(src, it["fn"], it["impl"])
                     else:
